@@ -1,5 +1,5 @@
 """C08: header bits per RFC 1035 4.1.1. Exhaustive over the 65536 flag words, 128x128 flag-set pairs, build side."""
-SLICE = "HDR (all 65536 flag words x sample ids/counts: parse, re-serialise, 8 peeks), PEEK (short buffers), FLAGS (128x128 flag sets), BUILDHDR (opcode x rcode x flag subsets)"
+SLICE = "HDR (all 65536 flag words x sample ids/counts: parse, re-serialise, 8 peeks), PEEK (short buffers), FLAGS (128x128 flag sets), BUILDHDR (opcode x rcode x flag subsets), COUNTS (sections of up to 65535 entries, built)"
 RULE = ("exhaustive: every 16-bit flags word (ids and counts derived from the seed and boundary values); all 128x128 "
         "pairs of flag sets plus words with foreign bits; all 16 opcode values x 18 rcode values x 128 flag subsets on the "
         "build side; all buffer lengths 0..12 for the peeks. non-trivial = header accepted (Z clear) or a peek returned a value; "
@@ -52,6 +52,15 @@ def cases(rng, tier):
                 hdr = b"\x12\x34" + w.to_bytes(2, "big") + b"\x00\x00\x00\x00\x00\x00\x00\x01"
                 opt = b"\x00\x00\x29\x04\xd0" + bytes([ext, ver, 0, 0]) + b"\x00\x00"
                 out.append("PARSE " + (hdr + opt).hex())
+    # every value a count word can take is written back: sections of 0, 1, 255, 256, 257, 65534 and 65535 minimal entries (the
+    # largest has 65535 root questions, or 65534 additional records plus the EDNS pseudo-record)
+    for sec in range(4):
+        for n in (0, 1, 255, 256, 257, 32767, 32768, 65534, 65535):
+            cnt = [1, 0, 0, 0]
+            cnt[sec] = n
+            out.append("COUNTS %x %x %x %x 0" % tuple(cnt))
+    for x in (0, 254, 255, 65533, 65534):
+        out.append("COUNTS 0 0 0 %x 1" % x)
     for n in range(0, 14):
         for fill in (b"\x00", b"\xff", b"\x80\x01", b"\x7b\xb0"):
             buf = (fill * 14)[:n]
@@ -98,7 +107,24 @@ def exp_peeks(buf):
     return " ".join(f)
 
 
+def oracle_counts(case, out):
+    q, a, n, x, o = [int(v, 16) for v in case.split()[1:]]
+    want_len = 12 + 5 * q + 15 * (a + n + x) + 11 * (1 if o else 0)
+    want_hdr = b"\x00\x01\x00\x00" + b"".join(v.to_bytes(2, "big") for v in (q, a, n, x + (1 if o else 0)))
+    for leg, name in zip(out.split(" | "), ("build_bytes_vec", "build_bytes_vec_compressed")):
+        if not leg.startswith("OK "):
+            return "%s refused a packet whose sections hold %d / %d / %d / %d entries%s: %s" % (name, q, a, n, x, " plus EDNS data" if o else "", leg[:60])
+        hx, ln = leg[3:].split()
+        if bytes.fromhex(hx) != want_hdr or int(ln, 16) != want_len:
+            return "%s: header %s, length %s for sections of %d / %d / %d / %d entries%s (expected %s, %x)" % (name, hx, ln, q, a, n, x, " plus EDNS data" if o else "", want_hdr.hex(), want_len)
+    return None
+
+
 def oracle(case, out):
+    if case.startswith("COUNTS"):
+        if out.startswith("PANIC") or out in ("HANG", "CRASH"):
+            return "%s for %s" % (out, case)
+        return oracle_counts(case, out)
     t = case.split()
     if t[0] == "HDR":
         idv, w, qd, an, ns, ar = (int(x, 16) for x in t[1:7])
